@@ -1,12 +1,12 @@
-\* exhaustive check of the transcribed algorithm; the buffer is 520 bytes here (the algorithm
+\* exhaustive check of the transcribed algorithm; the buffer is 370 bytes here (and the mid-size payload 20 instead of 100; the algorithm
 \* does not depend on the size; the replayed layouts of Rtx_Vec.cfg use the real 1500)
 CONSTANTS
   XProfs = {"bede", "two", "gen"}
   XLens = {0, 1, 3}
   Pads = {0, 1, 4, 255}
-  PLens = {0, 1, 2, 3, 100, 9999}
+  PLens = {0, 1, 2, 3, 20, 9999}
   Markers = {0, 1}
-  MTU = 520
+  MTU = 370
 INIT Init
 NEXT Next
 INVARIANTS ModelDelivered ModelDropped ModelNoStale ModelLayout
